@@ -324,3 +324,65 @@ def resolve_name_chain(func, node):
         else:
             break
     return node
+
+
+def returned_affine(canon, func, frame=None):
+    """The value returned by `func` as one Affine, judged over its acyclic paths: every path's
+    returned expression is evaluated in that path's environment of locals; paths that return
+    the same form merge; two forms X, Y selected by the order test between them merge to
+    max(X, Y) / min(X, Y).  None when the paths do not merge (callers fall back to judging
+    each return statement)."""
+    from ..norm import affine, affine_cmp, minmax_term, Affine
+    from ..paths import cached_paths, feasible
+    frame = frame or Frame(func)
+    cases = []
+    for p in cached_paths(func):
+        if p.exit == 'raise':
+            continue
+        if p.exit != 'return':
+            return None
+        env, lits, val = {}, set(), None
+        for e in p.events:
+            n = e.node
+            if e.kind == 'test' and isinstance(n, ast.Compare) and len(n.ops) == 1:
+                op = {ast.Lt: '<', ast.LtE: '<=', ast.Gt: '>', ast.GtE: '>='}.get(type(n.ops[0]))
+                c = affine_cmp(canon, n.left, op, n.comparators[0], frame, env) if op else None
+                if c is not None:
+                    lits.add((c[0], c[1] == bool(e.pol)))
+            elif e.kind == 'stmt' and isinstance(n, ast.Assign) and len(n.targets) == 1:
+                t = n.targets[0]
+                if isinstance(t, ast.Name):
+                    env[t.id] = affine(canon, n.value, frame, env)
+                elif isinstance(t, (ast.Tuple, ast.List)) and isinstance(n.value, (ast.Tuple, ast.List)) \
+                        and len(t.elts) == len(n.value.elts) and all(isinstance(x, ast.Name) for x in t.elts):
+                    vals = [affine(canon, v, frame, env) for v in n.value.elts]
+                    for x, v in zip(t.elts, vals):
+                        env[x.id] = v
+            elif e.kind == 'stmt' and isinstance(n, ast.AugAssign) and isinstance(n.target, ast.Name):
+                env.pop(n.target.id, None)
+            elif e.kind == 'stmt' and isinstance(n, ast.Return):
+                if n.value is None:
+                    return None
+                val = affine(canon, n.value, frame, env)
+        if val is None:
+            return None
+        cases.append((val, lits))
+    forms = {}
+    for v, l in cases:
+        forms.setdefault(repr(v), (v, []))[1].append(l)
+    if len(forms) == 1:
+        return next(iter(forms.values()))[0]
+    if len(forms) != 2:
+        return None
+    (X, lx), (Y, ly) = forms.values()
+
+    def picks(kind, A, B, lits):
+        # lits select A as the max (min) of {A, B}
+        ba, ab = '%r <= 0' % (B - A,), '%r <= 0' % (A - B,)
+        if kind == 'max':
+            return (ba, True) in lits or (ab, False) in lits
+        return (ab, True) in lits or (ba, False) in lits
+    for kind in ('max', 'min'):
+        if all(picks(kind, X, Y, l) for l in lx) and all(picks(kind, Y, X, l) for l in ly):
+            return minmax_term(kind, [X, Y])
+    return None
